@@ -64,6 +64,33 @@ def canonical_age(c, pol, is_date, is_now, days_ok):
     return False
 
 
+def age_operands(a):
+    """(comparisons, tested-not-None-in-the-same-expression, shape recognised) for a
+    verdict term: a comparison, bool(comparison), or a conjunction of comparisons and
+    "date is not None" tests."""
+    a = strip(a)
+    while is_call(a, 'bool') and len(a.args) == 1:
+        a = strip(a.args[0])
+    if isinstance(a, Phi) and len(a.alts) == 1:
+        return age_operands(a.alts[0][0])
+    if isinstance(a, BoolT) and a.op == 'and':
+        comps, dated, good = [], False, True
+        for v in a.values:
+            v0, p0 = unwrap_not(v, True)
+            if isinstance(v0, Cmp) and v0.op in ('is not', '!=') and p0 and \
+                    is_const(strip(v0.right), None) and has_strptime(v0.left):
+                dated = True
+                continue
+            c2, d2, g2 = age_operands(v)
+            comps += c2
+            dated = dated or d2
+            good = good and g2
+        return comps, dated, good
+    if isinstance(a, Cmp) and a.op in ('<', '>', '<=', '>='):
+        return [a], False, True
+    return [a], False, True
+
+
 def truth_of(a):
     a = strip(a)
     return isinstance(a, Const) and bool(a.value)
@@ -124,9 +151,18 @@ def check(ctx):
         c0 = strip(c)
         parts = list(alts(c0)) if isinstance(c0, Phi) else [(c, None)]
         consts = [(a, o) for a, o in parts if isinstance(strip(a), Const)]
-        tests = [(a, o) for a, o in parts if not isinstance(strip(a), Const)]
-        ok = bool(tests) and all(canonical_age(a, True, is_date, is_now, days_ok)
-                                 for a, o in tests)
+        raw = [(a, o) for a, o in parts if not isinstance(strip(a), Const)]
+        # bool(...) wrappers and "date is not None and <comparison>" conjunctions
+        tests, inline_dated, shape_ok = [], set(), True
+        for a, o in raw:
+            comps, dated, good = age_operands(a)
+            shape_ok = shape_ok and good
+            for c_ in comps:
+                tests.append((c_, o))
+                if dated:
+                    inline_dated.add(cid(c_))
+        ok = bool(tests) and shape_ok and all(
+            canonical_age(a, True, is_date, is_now, days_ok) for a, o in tests)
         key = (cid(c))
         if key not in seen:
             seen.add(key)
@@ -151,7 +187,7 @@ def check(ctx):
             # only evaluated for a dated entry
             for a, o in tests:
                 site = o if o is not None else n.id
-                guarded = False
+                guarded = cid(a) in inline_dated
                 for cc, pp, a_ in guards(b, site):
                     c2, p2 = unwrap_not(cc, pp)
                     if isinstance(c2, Cmp) and c2.op in ('is not', '!=', 'is', '==') and \
